@@ -41,6 +41,8 @@ def _job(args):
         E = Engine(prog)
         res = runner.run_unit(E, u, dflag)
         out['paths'] = res.paths
+        out['live_paths'] = res.live
+        out['vacuous_paths'] = res.vacuous
         out['undecided'] = res.undecided
         out['covers'] = sorted(res.covers)
         out['explore_s'] = round(res.time, 3)
